@@ -252,6 +252,7 @@ def recipe_for_hint(hint, depth=0, dates=True, objects=True):
 
 NONE_FOR_REQUIRED = [True]  # module switch: occasionally pass None for a required top-level field
 SHADOWING = ["json", "yaml", "dict", "copy", "cast", "merge_with", "from_partial", "parse_obj", "Config", "Plugin", "Fields"]
+ONE_MODEL_PER_UNION = [False]  # module switch (set by C14): at most one nested model among the members of a Union
 EXTRAS = [True]  # module switch: generate undeclared extra fields for Extra.allow models
 
 
@@ -391,6 +392,11 @@ def type_descs(n_models):
             # ambiguous (same reason) -> they only occur on their own
             rest = [m for m in members if not (isinstance(m, str) and m in ("SIValue", "NumValue"))]
             members = rest or members[:1]
+        if ONE_MODEL_PER_UNION[0]:
+            # (partial models accept any object - all fields optional, extras kept - so for partials a Union of two
+            # models always goes to the first member: inherently ambiguous, like the string-like members above)
+            first_model = next((m for m in members if isinstance(m, dict) and m["k"] == "Model"), None)
+            members = [m for m in members if not (isinstance(m, dict) and m["k"] == "Model") or m is first_model]
         for m in members:
             strlike = (isinstance(m, str) and m in STRLIKE) or (isinstance(m, dict) and m["k"] == "Enum") or \
                 (isinstance(m, dict) and m["k"] == "Literal" and any(isinstance(v, str) for v in m["v"]))
